@@ -7,6 +7,7 @@ import (
 	"os/exec"
 	"path/filepath"
 	"reflect"
+	"runtime/debug"
 	"strings"
 	"time"
 
@@ -444,6 +445,45 @@ func init() {
 				c.Nontrivial(fmt.Sprint(cfgNo, seq))
 			}
 			var secs []core.Section
+			// open file descriptors do not pile up with the number of calls (later calls would start to fail)
+			secs = append(secs, core.Section{Name: "descriptor-growth", Exhaustive: true, N: 2,
+				Run: func(c *core.Ctx, i int) {
+					h, root := histEnvFor(i)
+					if err := writeFiles(root, histFiles(histConfigs[i%len(histConfigs)].ext)); err != nil {
+						c.Inconclusive(err.Error())
+						return
+					}
+					countFDs := func() int {
+						ents, err := os.ReadDir("/proc/self/fd")
+						if err != nil {
+							return -1
+						}
+						return len(ents)
+					}
+					if !h.load(c) {
+						return
+					}
+					// finalizers would close leaked files at the next collection: none runs during the calls
+					old := debug.SetGCPercent(-1)
+					defer debug.SetGCPercent(old)
+					before := countFDs()
+					const calls = 400
+					for k := 0; k < calls; k++ {
+						textwire.EvaluateFile(h.absFile, map[string]any{"n": k})
+						textwire.EvaluateFile(h.absFile+".gone", nil)
+						if k%40 == 0 {
+							h.load(c)
+							h.tpl.String("home", map[string]any{"user": histUser{Name: "x"}})
+						}
+					}
+					after := countFDs()
+					c.Eval(calls * 2)
+					c.Nontrivial(fmt.Sprint("fds", i))
+					c.Sample(map[string]any{"open_descriptors_before": before, "after": after, "file_evaluations": calls * 2, "loads": calls / 40})
+					if before >= 0 && after-before > 16 {
+						c.Violation("history:descriptors-pile-up", fmt.Sprintf("%d file evaluations and %d loads left %d more open descriptors behind (%d -> %d) with the collector paused: later calls depend on how many came before", calls*2, calls/40, after-before, before, after), nil)
+					}
+				}})
 			for L := 1; L <= maxLen; L++ {
 				L := L
 				n := 1
